@@ -35,6 +35,11 @@ Theorem C17_first_close : forall s w, closed s = false ->
   (clear_pid s = true -> ws = [(AuditSet, REQ_ACK, status_bytes AuditStatusPID off_st_pid 0)]).
 Proof. exact first_close. Qed.
 
+(* a Close after the first is a no-op: no request, no socket close, state and script untouched *)
+Theorem C17_later_close_is_noop : forall s w, closed s = true -> cstep s w OClose = (s, w, (ROk, [], false)).
+Proof. intros s w H. cbn [cstep]. rewrite H. reflexivity. Qed.
+
+Print Assumptions C17_later_close_is_noop.
 Print Assumptions C17_wait_consumes_once_in_order.
 Print Assumptions C17_wait_returns_first_error.
 Print Assumptions C17_close_at_most_once.
